@@ -201,6 +201,8 @@ def run_property(prop_id, tier="quick", seed=0, jobs=None, only=None, write_evid
             sig = w.get("signature", "")
             if (name, sig) in seen_sig:
                 continue
+            if len(seen_sig) >= MAX_REPLAYS_PER_OBLIGATION:
+                break
             seen_sig.add((name, sig))
             rep = None
             if h.replay is not None and w:
@@ -327,6 +329,8 @@ def run_property(prop_id, tier="quick", seed=0, jobs=None, only=None, write_evid
     return code, {"groups": groups, "errors": errors, "violations": violations, "undecided": undecided,
                   "known_lines": known_lines, "summary": summary, "results": results}
 
+
+MAX_REPLAYS_PER_OBLIGATION = 3
 
 DEFAULT_TRUSTED = [
     "CPython ast parser (the verified text is the ast of the working-tree file, re-read on every run)",
